@@ -18,6 +18,7 @@ CONSTANTS Hash,        \* transaction hashes
           Iss, Rcv,    \* functions Hash -> Addr
           Slots,       \* identities of concurrently running operations
           MaxOps,      \* operations per behaviour
+          ExpiryOn,    \* whether entries may expire / be evicted during a behaviour
           Guard
 
 VARIABLES entry,   \* set of hashes that have an entry
@@ -139,6 +140,14 @@ PruneSet(c) ==
     /\ run' = [run EXCEPT ![c].pc = "pget", ![c].stale = Tail(run[c].stale)]
     /\ UNCHANGED <<entry, mu, nops, last>>
 
+\* bigcache drops an entry when its life window (5 min) has passed or its shard is full; the per-address lists are
+\* entries of their own and keep naming the hash until a reader prunes it
+Expire(h) ==
+    /\ ExpiryOn /\ h \in entry
+    /\ \A c \in Slots : run[c] = Idle \/ run[c].h # h
+    /\ entry' = entry \ {h}
+    /\ UNCHANGED <<list, run, mu, nops, last>>
+
 StepOf(c) ==
     \/ Lock(c) \/ Save1(c) \/ Save2(c) \/ SaveGet(c) \/ SaveSet(c)
     \/ Rem1(c) \/ Rem3(c) \/ RemGet(c) \/ RemSet(c)
@@ -149,6 +158,7 @@ Next ==
     \/ \E c \in Slots, h \in Hash, a \in Addr : Start(c, "remove", h, a)
     \/ \E c \in Slots, a \in Addr : Start(c, "read", "none", a)
     \/ \E c \in Slots : StepOf(c)
+    \/ \E h \in Hash : Expire(h)
 
 Spec == Init /\ [][Next]_vars
 
